@@ -104,6 +104,7 @@ TEMPLATES = [
     "if a { 1 } else if b { 2 } else { 3 }\n",
     "assert(x == 1)\nlet s2 = \"tab\\there\" ^ \"nl\\n\"\n",
     "let x = 1 // trailing comment\n// own line\nlet y = 2\n",
+    "fun tight(x:Int, y:String):Int { x }\nlet z:Int = 1\n",
     "fun with_comments() {\n  // first\n  let a = 1\n\n  // before close\n}\n",
 ]
 
@@ -327,7 +328,16 @@ def observe(exe, srcs):
 
 
 def classify(o):
-    """-> (key suffix, description) of the first C17 failure of observation o, or None."""
+    """-> (key suffix, description) of the first C17 failure of observation o, or None.
+    Inputs containing a carriage return get their own class: the formatter (like the CLI before it) re-terminates
+    every line with LF, which also rewrites CR LF inside multi-line strings and at the end of doc comments."""
+    c = classify0(o)
+    if c is not None and "\r" in o["src"] and c[0] != "format-panics":
+        return ("crlf-input:" + c[0], c[1] + " (input has CR LF line ends)")
+    return c
+
+
+def classify0(o):
     if o["out"] is None:
         return ("format-panics", "the formatter panicked: %s" % (o["panic"] or o["raw"]))
     a = o["asteq"]
@@ -363,59 +373,48 @@ def classify(o):
 # ---------------------------------------------------------------------------------------------
 # Per-phase edits (translation validation input)
 
+WS = set(map(chr, [9, 10, 11, 12, 13, 32, 0x85, 0xA0, 0x1680] + list(range(0x2000, 0x200B)) +
+             [0x2028, 0x2029, 0x202F, 0x205F, 0x3000]))          # char::is_whitespace
+
+
 def diff_edits(a, b):
-    """Byte edits turning a into b, one per differing line region (lines matched by difflib on line contents
-    with indentation stripped so that re-indentation shows up as an edit of the leading whitespace)."""
-    import difflib
-    A, B = a.encode("utf-8"), b.encode("utf-8")
-    if A == B:
-        return []
-    la, lb = A.split(b"\n"), B.split(b"\n")
-    sm = difflib.SequenceMatcher(None, [x.strip() for x in la], [x.strip() for x in lb], autojunk=False)
-    offs_a = [0]
-    for x in la:
-        offs_a.append(offs_a[-1] + len(x) + 1)
+    """Byte edits turning text a into text b, one per maximal whitespace run that differs (the whole run is replaced).
+    The two texts are walked in parallel; non-whitespace characters must agree. When they do not (the phase changed
+    something other than whitespace) the result is one edit from the first to the last difference."""
+    boff = [0]
+    for ch in a:
+        boff.append(boff[-1] + len(ch.encode("utf-8")))
     edits = []
-    for tag, i1, i2, j1, j2 in sm.get_opcodes():
-        if tag == "equal":
-            for k in range(i2 - i1):
-                x, y = la[i1 + k], lb[j1 + k]
-                if x != y:
-                    # same stripped content: leading and/or trailing whitespace differs
-                    lx, ly = len(x) - len(x.lstrip()), len(y) - len(y.lstrip())
-                    base = offs_a[i1 + k]
-                    if x.strip() == b"":
-                        edits.append([base, base + len(x), y.decode()])
-                        continue
-                    if x[:lx] != y[:ly]:
-                        edits.append([base, base + lx, y[:ly].decode()])
-                    tx, ty = len(x.rstrip()), len(y.rstrip())
-                    if x[tx:] != y[ty:]:
-                        edits.append([base + tx, base + len(x), y[ty:].decode()])
-        else:
-            start = offs_a[i1]
-            end = offs_a[i2] if i2 < len(offs_a) else len(A) + 1
-            rep = b"".join(l + b"\n" for l in lb[j1:j2])
-            end = min(end, len(A) + 1)
-            # the final pseudo line has no terminating newline
-            old = A[start:end] if end <= len(A) else A[start:] + b"\n"
-            # trim common prefix/suffix
-            p = 0
-            while p < len(old) and p < len(rep) and old[p] == rep[p]:
-                p += 1
-            q = 0
-            while q < len(old) - p and q < len(rep) - p and old[len(old) - 1 - q] == rep[len(rep) - 1 - q]:
-                q += 1
-            s_, e_ = start + p, start + len(old) - q
-            if e_ > len(A):          # touched the virtual final newline: give up precise diff, whole-tail edit
-                return [[_prefix(A, B), len(A) - _suffix(A, B, _prefix(A, B)),
-                         B[_prefix(A, B):len(B) - _suffix(A, B, _prefix(A, B))].decode("utf-8", "replace")]]
-            edits.append([s_, e_, rep[p:len(rep) - q].decode("utf-8", "replace")])
-    if apply_edits_py(A, edits) != B:
-        p = _prefix(A, B)
-        q = _suffix(A, B, p)
-        edits = [[p, len(A) - q, B[p:len(B) - q].decode("utf-8", "replace")]]
-    return edits
+    i = j = 0
+    na, nb = len(a), len(b)
+    while True:
+        i2 = i
+        while i2 < na and a[i2] in WS:
+            i2 += 1
+        j2 = j
+        while j2 < nb and b[j2] in WS:
+            j2 += 1
+        if a[i:i2] != b[j:j2]:
+            # the common prefix of the two runs is kept out of the edit (it may hold the line feed that ends a comment)
+            k = 0
+            while i + k < i2 and j + k < j2 and a[i + k] == b[j + k]:
+                k += 1
+            edits.append([boff[i + k], boff[i2], b[j + k:j2]])
+        i, j = i2, j2
+        if i >= na and j >= nb:
+            return edits
+        while i < na and j < nb and a[i] not in WS and b[j] not in WS:
+            if a[i] != b[j]:
+                break
+            i += 1
+            j += 1
+        if (i < na and a[i] not in WS) and (j < nb and b[j] not in WS) or (i >= na) != (j >= nb) and \
+                not ((i < na and a[i] in WS) or (j < nb and b[j] in WS)):
+            # a change that is not whitespace
+            A, B = a.encode("utf-8"), b.encode("utf-8")
+            p = _prefix(A, B)
+            q = _suffix(A, B, p)
+            return [[p, len(A) - q, B[p:len(B) - q].decode("utf-8", "replace")]]
 
 
 def _prefix(A, B):
@@ -466,6 +465,7 @@ def phase_edits(o):
         else:
             ed = diff_edits(a, b)
             exact = False
+        ed.sort(key=lambda e: -e[0])          # stable: the order apply_span_edits uses
         res.append((cur, a, ed, b, exact))
     return res
 
@@ -624,16 +624,26 @@ def run(ctx):
         if "ok" not in d:
             ctx.broken("model-driver:gapcheck", "bad answer %r" % line[:200])
             break
-        if common.unhex(d.get("applied", "")) != b and d.get("sorted") == "1":
+        applied = common.unhex(d["applied"]) if d.get("applied", "!") != "!" else None
+        if applied != b.encode("utf-8") and d.get("sorted") == "1":
             ctx.broken("correspondence:apply-edits", "phase %s on %r: model application of %s gives %r, formatter %r"
-                       % (name, a, ed, common.unhex(d.get("applied", ""))[:200], b[:200]))
+                       % (name, a, ed, (applied or b"!")[:200], b[:200]))
             break
         if d["ok"] == "1":
             if d.get("same") != "1":
                 ctx.broken("model:theorem-instance", "edits accepted by gapcheck changed the model's token sequence: %r %s" % (a, ed))
             continue
         reason = d.get("bad", "?")
-        cls = "%s:%s" % (name, reason.split(":")[-1] if reason else "?")
+        cls = "%s:%s" % (name, reason.split(",")[0].split(":")[-1] if reason else "?")
+        harmless = d.get("same") == "1" and cls.split(":")[-1] in ("glue", "inside-token-or-comment", "shebang") and not exact
+        harmless = harmless or (d.get("same") == "1" and cls.split(":")[-1] == "glue")
+        if "\r" in o["src"]:
+            ctx.stat("phase edits outside the proved conditions on CR LF input (see crlf-input finding)")
+            continue
+        if harmless:
+            # outside the SUFFICIENT conditions, but the model lexer sees the same tokens and comments
+            ctx.stat("phase edits outside the proved conditions, tokens and comments kept:" + cls)
+            continue
         ctx.stat("phase edits outside the proved conditions:" + cls)
         if cls not in seen_bad or len(seen_bad[cls][0]["src"]) > len(o["src"]):
             seen_bad[cls] = (o, name, a, ed, d)
